@@ -47,6 +47,14 @@ AGG = Profile(
     p_null_fact=0.15, p_argminmax=0.25, p_nested_agg=0.3, p_clash_names=0.5)
 
 
+# C07 uses the aggregation profile without null facts (the excluded shapes of
+# C02's known findings would only repeat here).
+AGG7 = Profile(
+    kinds=dict(plain=3, distinct=4, func=1, inline=1, aggfunc=2),
+    extras=dict(cmp=2, assign=2, inc=1, alt=2, neg=3, aggexpr=3, filt_inc=1),
+    p_argminmax=0.25, p_nested_agg=0.2, p_clash_names=0.3)
+
+
 def AllVarNames(x):
   out = set()
   if isinstance(x, dict):
